@@ -255,6 +255,12 @@ pub struct World {
     pub in_flight: u32,
     pub sig: u64,
     pub last_delivered_sent_at: BTreeMap<u32, Ns>,
+    /// application events emitted during the current step: (inc, event kind, debug text hash)
+    pub step_events: Vec<(u32, u32)>,
+    /// datagram delivered in the current step (u32::MAX if the step was not a delivery)
+    pub step_dgram: u32,
+    /// reset-key seed per node (so that oracles can recompute stateless reset tokens)
+    pub reset_key_seeds: BTreeMap<u32, u64>,
 }
 
 #[derive(Clone, Debug)]
@@ -328,6 +334,9 @@ impl World {
             in_flight: 0,
             sig: 0,
             last_delivered_sent_at: BTreeMap::new(),
+            step_events: Vec::new(),
+            step_dgram: u32::MAX,
+            reset_key_seeds: BTreeMap::new(),
         }
     }
 
@@ -1043,6 +1052,7 @@ impl World {
                 if let Event::ConnectionLost { reason } = &e {
                     self.conns[inc as usize].lost.push(reason.clone());
                 }
+                self.step_events.push((inc, event_kind(&e)));
                 self.logf(|| format!("inc{} event {:?}", inc, e));
                 scen.on_event(self, inc, e);
             }
@@ -1139,8 +1149,13 @@ impl World {
             let ev = self.queue.remove(&(t, s)).unwrap();
             self.now = t;
             self.step += 1;
+            self.step_events.clear();
+            self.step_dgram = u32::MAX;
             match ev {
-                Ev::Deliver(id) => self.deliver(id, scen),
+                Ev::Deliver(id) => {
+                    self.step_dgram = id;
+                    self.deliver(id, scen)
+                }
                 Ev::Timer { inc, gen } => self.fire_timer(inc, gen),
                 Ev::Wake(tag) => scen.on_wake(self, tag),
             }
